@@ -52,7 +52,7 @@ LEDGER = {
                     [M("ESDTTransfer,kv,create,ESDTNFTTransfer,MultiESDTNFTTransfer", gas=(0, 9, 10, 11, 60, 1000), hs=("u0a", "u1a"), rejected=False), M("metaops,mintburn,acct,create", gas=(0, 9, 10, 11, 20, 1000), hs=("u0a", "u1a"), rejected=False, accsample=4)]),
                 need=dict(gas_max=20, gas_rej=20, priced=50)),
     "C07": dict(profile="nonce", preds=["P07_ReturnedNonce", "P07_Handover", "P07_CtrOnlyByCreate", "CounterWithRole"],
-                mc=([M("create,handover,ESDTNFTTransfer", ctr=2)],
+                mc=([M("create,handover", ctr=2), M("create,handover,ESDTNFTTransfer", ctr=2, hs=("u0a", "u1a"))],
                     [M("create,handover,ESDTNFTTransfer", ctr=2, accsample=2), M("create,handover,ESDTNFTTransfer,MultiESDTNFTTransfer", ctr=2, hs=("u0a", "u1a"), accsample=2)]),
                 need=dict(create_ok=15, handover_ok=2, handover_deliver=1)),
     "C08": dict(profile="meta", preds=["P08_Conf", "P08_Create", "P08_OnlyUriAttr", "P08_UriAttrExact", "P08_WrongHash"],
